@@ -331,76 +331,42 @@ func bottomK[K nodeKey, V any](t Tree[K, V], k uint) iter.Seq2[K, V] {
 	}
 }
 
+// lowestCommonParent descends along prefix and returns the lowest node whose
+// subtree contains every key starting with prefix (the zero nodeRef when no
+// key can start with it).
 func lowestCommonParent[V any, L nodeLeaf[V]](root nodeRef, prefix []byte) nodeRef {
-	var q []nodeRef
-
+	n := root
 	depth := 0
-	q = append(q, root)
-	for len(q) != 0 {
-		n := q[len(q)-1]
-		q = q[:len(q)-1]
 
-		idx := prefixMismatch[V, L](n, prefix, depth)
-		if idx == 0 { // no match
-			continue
+	for n.pointer != nil && n.tag != nodeKindLeaf {
+		node := n.node()
+
+		if node.prefixLen != 0 {
+			idx := prefixMismatch[V, L](n, prefix, depth)
+			if depth+idx >= len(prefix) { // prefix ends inside this compressed path
+				return n
+			}
+
+			if idx < int(node.prefixLen) { // prefix leaves the compressed path
+				return nodeRef{}
+			}
+			depth += int(node.prefixLen)
 		}
 
-		if idx < min(len(prefix)-depth, maxPrefixLen) {
-			root = n
-			break
+		if depth >= len(prefix) {
+			return n
 		}
 
-		switch n.tag {
-		case nodeKind4:
-			n4 := (*node4)(n.pointer)
-
-			for i := int(n4.childrenLen) - 1; i >= 0; i-- {
-				if n4.children[i].tag == nodeKindLeaf {
-					continue
-				}
-				q = append(q, n4.children[i])
-			}
-
-		case nodeKind16:
-			n16 := (*node16)(n.pointer)
-
-			for i := int(n16.childrenLen) - 1; i >= 0; i-- {
-				if n16.children[i].tag == nodeKindLeaf {
-					continue
-				}
-				q = append(q, n16.children[i])
-			}
-
-		case nodeKind48:
-			n48 := (*node48)(n.pointer)
-
-			for i := 255; i >= 0; i-- {
-				idx := n48.keys[i]
-				if idx == 0 || n48.children[i].tag == nodeKindLeaf {
-					continue
-				}
-				q = append(q, n48.children[idx-1])
-			}
-
-		case nodeKind256:
-			n256 := (*node256)(n.pointer)
-
-			for i := 255; i >= 0; i-- {
-				if n256.children[i].pointer == nil || n256.children[i].tag == nodeKindLeaf {
-					continue
-				}
-
-				q = append(q, n256.children[i])
-			}
-
-		default:
-			panic("shouldn't be possible!")
+		child := n.findChild(prefix[depth])
+		if child == nil {
+			return nodeRef{}
 		}
 
-		depth += idx + 1
+		n = *child
+		depth++
 	}
 
-	return root
+	return n
 }
 
 func filter[K nodeKey, V any](root nodeRef, predicate func(K, V) bool, restore func(unsafe.Pointer) (K, V)) iter.Seq2[K, V] {
